@@ -190,8 +190,57 @@ def stepFilter (s : FSt) (ts : List String) : FSt × String :=
       ({ cells := cells, next := next }, s!"n={set.length} elems={showNatList set} missing={blockMissing mtxs}")
   | _ => (s, "bad-op")
 
+/-! ### node stream: the harness reports the node's main chain; the model replays what
+`reconcile_main_chain` does to the MMR (re-create at the fork point over the same store, push). -/
+
+structure NSt where
+  mmr : MMR PT := ⟨0, Store.empty⟩
+  chain : List Nat := []
+
+def commonPrefix : List Nat → List Nat → Nat
+  | a :: as, b :: bs => if a = b then 1 + commonPrefix as bs else 0
+  | _, _ => 0
+
+def rootStr (tag : String) (m : MMR PT) : String :=
+  match getRoot pmerge m with
+  | some (some r) => s!"{tag} {r.render}"
+  | _ => "err"
+
+def stepNode (s : NSt) (ts : List String) : NSt × String :=
+  match ts with
+  | ["blk", _, _] => (s, "ok")
+  | ["bad", _, _] => (s, "rejected")
+  | ["main", ids] =>
+    match parseNatList? ids with
+    | none => (s, "bad-op")
+    | some ids =>
+      let newChain := 0 :: ids
+      let c := commonPrefix s.chain newChain
+      let base : MMR PT := { size := sizeOfLeaves c, store := s.mmr.store }
+      match pushChecked base (newChain.drop c) with
+      | some (m, _) => ({ mmr := m, chain := newChain }, rootStr "root" m)
+      | none => (s, "err")
+  | ["rootat", n] =>
+    match parseNat? n with
+    | some n => (s, rootStr "root" (recreate s.mmr n))
+    | none => (s, "bad-op")
+  | ["ext", n] =>
+    match parseNat? n with
+    | some n => (s, rootStr "ext" (recreate s.mmr (n - 1)))
+    | none => (s, "bad-op")
+  | ["proof", n, idxs] =>
+    match parseNat? n, parseNatList? idxs with
+    | some n, some idxs =>
+      let m := recreate s.mmr n
+      match (genProof pmerge m (idxs.map leafIndexToPos)).bind allSome with
+      | some p => (s, s!"proof {m.size} {renderList p}")
+      | none => (s, "err")
+    | _, _ => (s, "bad-op")
+  | _ => (s, "bad-op")
+
 def main (args : List String) : IO UInt32 :=
   match args with
+  | ["node"] => runLines ({} : NSt) stepNode
   | ["filter"] => runLines ({} : FSt) stepFilter
   | _ => runLines ({} : St) stepMmr
 
